@@ -53,7 +53,8 @@ type Glyph struct {
 	Mask       uint32
 
 	// startLetterSpacing and endLetterSpacing are set when letter spacing is applied,
-	// measuring the whitespace added on one side (half of the user provided letter spacing)
+	// measuring the whitespace added on one side (half of the user provided letter spacing,
+	// the end side taking the remainder of an odd value)
 	// The line wrapper will ignore [endLetterSpacing] when deciding where to break,
 	// and will trim [startLetterSpacing] at the start of the lines
 	startLetterSpacing, endLetterSpacing fixed.Int26_6
